@@ -220,6 +220,16 @@ func interactionPrograms() []string {
 		out = append(out, fmt.Sprintf(`m = %s; for i = 4 {println(m[i], m[i + 0.5], m[i * 1.0])}`, m))
 		out = append(out, fmt.Sprintf(`f = func(n) {m = %s; m[n] = "new"; del(m[n + 1]); m}; println(f(1), f(2))`, m))
 	}
+	// (N) an integer parameter / loop variable holding a value at an end of the int64 range, under every operator that changes
+	//     or recomputes it (the register path and the variable path each have their own arithmetic)
+	for _, v := range []string{"9223372036854775807", "9223372036854775806", "-9223372036854775808", "-9223372036854775807", "4611686018427387904", "-4611686018427387905", "3037000500", "-1"} {
+		for _, op := range []string{"++n; n", "n++; n", "--n; n", "n--; n", "n = n + 1; n", "n = n - 1; n", "n = n * 2; n", "n = -n; n", "n = n / -1; n", "n = n % -1; n", "n = n << 1; n", "n = n >> 63; n",
+			"n = n * n; n", "n = n - -n; n", "m = n; ++n; [m, n]", "[++n, n--, n]", "n + 1", "n - 1", "-n", "n * -1", "n / -1", "n == n + 1", "n < n + 1", "n > n - 1", "abs(n)", "(n:n + 2)", "[n][0] + 1"} {
+			out = append(out, fmt.Sprintf(`f = func(n) {%s}; r = catch(f(%s)); println(if r.err {"E"} else {r.value})`, op, v))
+		}
+		out = append(out, fmt.Sprintf(`r = catch(func() {for i = %s:%s + 1 {println(i, i + 1, i - 1, -i)}}()); println(r.err)`, v, v))
+		out = append(out, fmt.Sprintf(`r = catch(func() {for i = %s - 1:%s {n = i; ++n; println(i, n)}}()); println(r.err)`, v, v))
+	}
 	// containers reached through references
 	for _, a := range []string{"x[0] = 5", `x.k = 5`, "del(x[0])", "x = x + 1", "x = x + x", "del(x)"} {
 		for _, init := range []string{"[1, 2, 3]", `{"k": 1, 0: 2}`, "1:12", `{1: 1, 2: 2, 3: 3, 4: 4, 5: 5}`} {
